@@ -43,6 +43,7 @@ type interp struct {
 	overrides map[string]value
 
 	curInstr       ssa.Instruction
+	atomConcretize bool
 	noExt          string
 	spec           int
 	noMerge        bool
